@@ -242,8 +242,50 @@ func gtyOf(rt reflect.Type) *gty {
 		if k != nil && e != nil {
 			return &gty{kind: "map", key: k, elem: e}
 		}
+	case reflect.Struct:
+		t := &gty{kind: "struct"}
+		for i := 0; i < rt.NumField(); i++ {
+			f := rt.Field(i)
+			ft := gtyOf(f.Type)
+			if ft == nil || f.PkgPath != "" {
+				return nil
+			}
+			t.fields = append(t.fields, gfield{name: f.Name, t: ft, tag: string(f.Tag), anon: f.Anonymous})
+		}
+		return t
 	}
 	return nil
+}
+
+// registerDynamic registers the struct types that occur only as DYNAMIC types of interface{} values inside v (after the static
+// ones): an interface{} holding a registered struct wraps to an object, and reflecting the object into the interface{} gives the
+// struct back (reflectedObject.Reflect)
+func registerDynamic(c px.Context, t *gty, v reflect.Value, seen map[reflect.Type]px.ObjectType) {
+	switch t.kind {
+	case "iface":
+		if !v.IsNil() {
+			if dt := gtyOf(v.Elem().Type()); dt != nil {
+				registerStructs(c, dt, seen)
+				registerDynamic(c, dt, v.Elem(), seen)
+			}
+		}
+	case "ptr":
+		if !v.IsNil() {
+			registerDynamic(c, t.elem, v.Elem(), seen)
+		}
+	case "slice", "array":
+		for i := 0; i < v.Len(); i++ {
+			registerDynamic(c, t.elem, v.Index(i), seen)
+		}
+	case "map":
+		for _, k := range v.MapKeys() {
+			registerDynamic(c, t.elem, v.MapIndex(k), seen)
+		}
+	case "struct":
+		for i, f := range t.fields {
+			registerDynamic(c, f.t, v.Field(i), seen)
+		}
+	}
 }
 
 func (t *gty) has(kind string) bool {
@@ -709,8 +751,14 @@ func registerStructs(c px.Context, t *gty, seen map[reflect.Type]px.ObjectType) 
 func refl(c px.Context, t *gty, ve sx.Sexp, register bool) core.Result {
 	gv := build(t, ve)
 	rt := t.rtype()
-	if register && t.has("struct") {
-		if k, text := safely(func() { registerStructs(c, t, map[reflect.Type]px.ObjectType{}) }); k != "" {
+	if register && (t.has("struct") || t.has("iface")) {
+		if k, text := safely(func() {
+			seen := map[reflect.Type]px.ObjectType{}
+			registerStructs(c, t, seen)
+			if t.has("iface") {
+				registerDynamic(c, t, gv, seen)
+			}
+		}); k != "" {
 			if r := notReflectable(t); r != "" {
 				return core.Result{Out: "register=" + k, Pred: "n/a", NonTrivial: true}
 			}
@@ -2604,6 +2652,18 @@ func gen(g *core.G) {
 		g.Emit("@refl (slice iface) (s " + d + " (i bool f))")
 		g.Emit("@refl (map string iface) (m (x6b " + d + "))")
 	}
+	// an interface{} holding a struct whose type is registered (implementation only): it wraps to an object and the object
+	// reflects back into the interface{} as the struct / the pointer it holds
+	g.Emit("@refl (slice iface) (s (i (struct (A (int 8))) (st 5)) nil (i (ptr (struct (A (int 8)))) (p (st -1))))")
+	g.Emit("@refl iface (i (struct (A string) (B (slice (uint 8)))) (st x61 (s 1)))")
+	g.Emit("@refl iface (i (ptr (struct (A string))) (p (st x61)))")
+	g.Emit("@refl (map string iface) (m (x6b (i (struct (A bool)) (st t))))")
+	g.Emit("@refl (struct (A iface) (B (struct (X bool)))) (st (i (struct (X bool)) (st t)) (st f))")
+	g.Emit("@obj (struct (A iface) (B (struct (X bool)))) (st (i (ptr (struct (X bool))) (p (st t))) (st f))")
+	// tags of other kinds beside the puppet tag (they become a TagsAnnotation of the attribute; implementation only)
+	g.Emit(`@obj (struct (A (int 8) ` + sx.Str(`json:"a" puppet:"name=>'x'"`).Atom + `) (B string ` + sx.Str(`json:"bb,omitempty" yaml:"b"`).Atom + `)) (st 3 x61)`)
+	g.Emit(`@refl (struct (A (ptr string) ` + sx.Str(`lyra:"ignore" puppet:"value=>'d'"`).Atom + `)) (st nil)`)
+	g.Emit(`@obj (struct (emb Base (struct (PA bool ` + sx.Str(`json:"pa"`).Atom + `))) (B (float 64) ` + sx.Str(`json:"-"`).Atom + `)) (st (st t) 0)`)
 	emit(&gty{kind: "iface"}, "nil")
 	emit(&gty{kind: "slice", elem: &gty{kind: "iface"}}, "(s (i (int 0) 1) (i string x61) nil)")
 	emit(&gty{kind: "map", key: &gty{kind: "string"}, elem: &gty{kind: "iface"}}, "(m (x61 nil) (x62 (i (int 64) 1)))")
